@@ -200,7 +200,9 @@ class TreeArguments(AbstractArguments):
                 if el.type == 'argument':
                     c = el.children
                     if len(c) == 3:  # Keyword argument.
-                        named_args.append((c[0].value, LazyTreeValue(self.context, c[2]),))
+                        # The grammar allows `f(a.b=1)`, that is not a keyword.
+                        if c[0].type == 'name':
+                            named_args.append((c[0].value, LazyTreeValue(self.context, c[2]),))
                     else:  # Generator comprehension.
                         # Include the brackets with the parent.
                         sync_comp_for = el.children[1]
